@@ -642,3 +642,29 @@ def opnames_entities(d):
         e["main"] = [k for k in ("query", "header") if e[k]] + (["path"] if pathp else []) + (["body"] if o.get("body") is not None else [])
         ents["ops"].append(e)
     return ents
+
+
+# ---- C13: a pool whose members carry `const` tags, plus a named discriminated union WITHOUT mapping over all of
+# them (registers the members in the discriminator cache: every other mapping-less discriminator over a subset gets
+# an implicit mapping and becomes a TAGGED enum, while the same refs without discriminator stay untagged) ----
+ANIMAL_POOL = {
+    "Cat": {"type": "object", "required": ["kind"], "properties": {"kind": {"type": "string", "const": "cat"}, "lives": {"type": "integer"}}},
+    "Dog": {"type": "object", "required": ["kind"], "properties": {"kind": {"type": "string", "const": "dog"}, "bark": {"type": "string"}}},
+    "Bird": {"type": "object", "required": ["kind"], "properties": {"kind": {"type": "string", "const": "bird"}, "wingspan": {"type": "number"}}},
+    "Animal": {"oneOf": [{"$ref": "#/components/schemas/Cat"}, {"$ref": "#/components/schemas/Dog"}, {"$ref": "#/components/schemas/Bird"}], "discriminator": {"propertyName": "kind"}},
+}
+SHARE_POOLS = {"abc": SHARE_POOL, "animals": ANIMAL_POOL}
+
+
+def share_spec_pool(occs, extra=None, pool="abc"):
+    """share_spec over another fixed pool of component schemas"""
+    s = share_spec(occs, extra)
+    sch = s["components"]["schemas"]
+    for k in SHARE_POOL:
+        if not any(o["site"].get("name") == k for o in occs) and not (extra and extra.get("name") == k):
+            sch.pop(k, None)
+    for k, v in SHARE_POOLS[pool].items():
+        if k in sch:
+            raise ValueError("duplicate name")
+        sch[k] = copy.deepcopy(v)
+    return s
